@@ -118,6 +118,9 @@ def gen(rng, tier):
         if not thorough and big in text and text not in ("$[%s]" % big, "$[:%s]" % big, "$[?@.a == %s]" % big, "$[?@.a == 1e%s]" % big):
             continue
         yield {"kind": "compile", "text": text, "doc": [{"a": "aa", "p": "a{99999999999}"}, {"a": 1}], "ctx": Q.CTX}
+    from . import c10 as RT
+    for text in RT.RAW_FLOATS:
+        yield {"kind": "compile", "text": text, "doc": [{"a": 1.5, "b": 0.1}, {"a": 1e300}], "ctx": Q.CTX}
     # (1c) regular expressions at the edges of what `re` accepts: inline flags (and their clashes with the literal's flags),
     # group syntax, back-references, look-around, classes, counted repetition, stray meta-characters
     PATS = ["(?u)x", "(?a)(?u)x", "(?au)x", "(?L)x", "x(?i)", "(?i:x)", "(?-i:x)", "(?P<n>x)", "(?P=n)", "(?#c)x", "\\p{L}", "[[:alpha:]]",
